@@ -9,7 +9,8 @@ identity of the cause is gone)  --chord.ErrorMapper-->  caller's error value  --
 -/
 namespace Specter.C14
 
-/-- one `errorDef`: (variable name, message, retryable) -/
+/-- one known sentinel error — an `errorDef` of the registry or an external sentinel such as
+context.DeadlineExceeded: (Go variable, message, member of `retryableErrs`) -/
 abbrev Entry := String × String × Bool
 def Entry.name (e : Entry) : String := e.1
 def Entry.msg (e : Entry) : String := e.2.1
@@ -17,30 +18,25 @@ def Entry.retryable (e : Entry) : Bool := e.2.2
 
 /-- Go error values, up to what `errors.Is`, `Error()` and the twirp client can observe -/
 inductive GoErr where
-  | reg (e : Entry)                       -- the registry variable itself (pointer identity)
-  | deadline                              -- context.DeadlineExceeded
+  | reg (e : Entry)                       -- a known sentinel itself (pointer identity)
   | opaque (msg : String)                 -- any other error, `Error() = msg`, unwraps to nothing
   | wrap (msg : String) (inner : GoErr)   -- fmt.Errorf("…%w", inner) with `Error() = msg`
   | twirp (code msg : String)             -- a twirp error as decoded by the client (no cause)
   deriving DecidableEq, Repr
 
-def deadlineMsg : String := "context deadline exceeded"
-
 /-- `Error()` -/
 def GoErr.msg : GoErr → String
   | .reg e => e.msg
-  | .deadline => deadlineMsg
   | .opaque m => m
   | .wrap m _ => m
   | .twirp c m => "twirp error " ++ c ++ ": " ++ m
 
-/-- `ErrorIsRetryable`: some element of `retryableErrs` (= DeadlineExceeded + the retryable registry variables)
-is reached by `errors.Is` (identity along the unwrap chain) -/
-def retryable (reg : List Entry) : GoErr → Bool
-  | .reg e => reg.contains e && e.retryable
-  | .deadline => true
+/-- `ErrorIsRetryable`: some element of `retryableErrs` (the retryable known sentinels) is reached by
+`errors.Is` (identity along the unwrap chain). `known` = external sentinels ++ registry. -/
+def retryable (known : List Entry) : GoErr → Bool
+  | .reg e => known.contains e && e.retryable
   | .opaque _ => false
-  | .wrap _ inner => retryable reg inner
+  | .wrap _ inner => retryable known inner
   | .twirp _ _ => false
 
 structure Wire where
@@ -50,19 +46,27 @@ structure Wire where
 
 /-- `rpc.WrapError` / `rpc.WrapErrorKV` (same code selection), or a raw return (twirp then wraps any
 non-twirp error as `internal`) -/
-def wrapErr (reg : List Entry) (how : String) (x : GoErr) : Wire :=
+def wrapErr (known : List Entry) (how : String) (x : GoErr) : Wire :=
   if how = "raw" then { code := "internal", msg := x.msg }
-  else { code := if retryable reg x then "failed_precondition" else "internal", msg := x.msg }
+  else { code := if retryable known x then "failed_precondition" else "internal", msg := x.msg }
 
-/-- `ErrorMapper` on the client's twirp error: `errorStrMap[Msg()]`, a Go map filled in registry order
-(a later definition with the same message overwrites an earlier one) -/
-def mapper (reg : List Entry) (w : Wire) : GoErr :=
-  match reg.reverse.find? (fun e => e.msg == w.msg) with
+/-- `ErrorMapper` on the client's twirp error: `errorStrMap[Msg()]`; `mapped` = the entries of that Go map in
+insertion order (its initial literal, then the registry; a later entry with the same message overwrites) -/
+def mapper (mapped : List Entry) (w : Wire) : GoErr :=
+  match mapped.reverse.find? (fun e => e.msg == w.msg) with
   | some e => .reg e
   | none => .twirp w.code w.msg
 
 /-- what the remote caller ends up with -/
-def acrossRPC (reg : List Entry) (how : String) (x : GoErr) : GoErr := mapper reg (wrapErr reg how x)
+def acrossRPC (known mapped : List Entry) (how : String) (x : GoErr) : GoErr := mapper mapped (wrapErr known how x)
+
+/-- instantiation with the generated facts -/
+def registry : List Entry := Gen.C14.registry
+def externals : List Entry := Gen.C14.externals
+def known : List Entry := externals ++ registry
+def mapped : List Entry := externals.filter (fun e => Gen.C14.mapInit.contains e.name) ++ registry
+/-- the error map before the repair "remote callers recognise a deadline error as retryable" -/
+def mappedPreFix : List Entry := registry
 
 def howOf (handlers : List (String × String)) (method : String) : String := (handlers.lookup method).getD "WrapError"
 
